@@ -260,3 +260,54 @@ class CappedOnRamp(M.MeteredOnRamp):
         if engine is None:
             engine = get_current_engine()
         return -engine.max(-q, -q_max)
+
+
+class MeasuredSpeedOrigin(M.MainstreamOrigin):
+    """A mainstream origin whose upstream speed is a measurement: a DISTURBANCE called `v` (the name the links use for
+    their speed STATE) held after the demand `d`; its queue `w` and limit `v_ctrl` are the stock ones."""
+
+    _vf_user = True
+    _disturbances = {"d", "v"}
+
+    def init_vars(self, init_conditions=None, engine=None, **kwargs):
+        if engine is None:
+            engine = get_current_engine()
+        ic = dict(init_conditions or {})
+        v = ic.pop("v", None)
+        super().init_vars(ic, engine, **kwargs)
+        self.disturbances["v"] = v if v is not None else engine.var(f"v_{self.name}")
+
+    def get_speed(self, net, **kwargs):
+        return self.disturbances["v"]
+
+
+# Stock kinds whose objects happen to be falsy (a `__len__` counting something that is zero, a `__bool__` telling
+# something of the user's own): nothing the library may rely on when it asks "was an element given / found".
+class QuietLink(M.Link):
+    def __bool__(self):
+        return False
+
+
+class CountingVslLink(M.LinkWithVsl):
+    def __len__(self):  # "incidents reported on this link"
+        return 0
+
+
+class QuietDestination(M.Destination):
+    def __bool__(self):
+        return False
+
+
+class CountingCongestedDestination(M.CongestedDestination):
+    def __len__(self):
+        return 0
+
+
+class QuietMainstream(M.MainstreamOrigin):
+    def __bool__(self):
+        return False
+
+
+class CountingOrigin(M.Origin):
+    def __len__(self):
+        return 0
